@@ -17,3 +17,5 @@ open GrVerif.Props.C01
 #print axioms silf_subtable_total
 #print axioms silf_subtable_offsets_in_bounds
 #print axioms silf_table_total
+#print axioms code_loader_total
+#print axioms accepted_code_class_lookups_in_bounds
